@@ -203,10 +203,10 @@ def judge(ctx, audit, iface, kind, form, served_abs, app, path, root=""):
     return got
 
 
-def in_flight(ctx, iface, kind, app, paths):
+def in_flight(ctx, iface, kind, app, paths, pre=None):
     from vf import inflight
     reqs = [drivers.Req(path=p.encode("utf-8"), server=("t", 80)) for p in paths]
-    inflight.check_group(ctx, iface, app, reqs, kind.lower(), {"app": kind, "in_flight_paths": paths, "directory_form": "absolute"})
+    inflight.check_group(ctx, iface, app, reqs, kind.lower(), {"app": kind, "in_flight_paths": paths, "directory_form": "absolute"}, pre=pre)
 
 
 def nontrivial(path):
@@ -358,12 +358,17 @@ def run(ctx):
             ctx.case(("long", form, iface, kind, path))
         # ---- several requests in flight on one app object: each client gets the file it asked for (vf/inflight.py)
         pool = ["/" + rel for rel in TREE] + ["/dir", "/dir/", "/", "/nope", "/dir/nope.txt", "/../secret.txt", "/dir/../a.txt"]
+        from vf import inflight
         for (form, iface, kind), (abs_dir, app) in apps.items():
             if form != "absolute":
                 continue
             for g in range(ctx.scale(12, 400)):
                 paths = [rng.choice(pool) for _ in range(rng.choice([2, 3, 5]))]
-                in_flight(ctx, iface, kind, app, paths)
+                if g % 6 == 0:  # ... and the first two of them as two server threads, with a placed thread switch
+                    with inflight.preemptor() as pre:
+                        in_flight(ctx, iface, kind, app, paths, pre)
+                else:
+                    in_flight(ctx, iface, kind, app, paths)
                 ctx.case(("in-flight", iface, kind, tuple(paths)))
     finally:
         os.chdir(cwd0)
@@ -393,7 +398,12 @@ def replay(ctx, case):
         abs_dir = os.path.join(pkg, "static") if form == "package" else served
         app = getattr(ns, case["app"])(**kw)
         if "in_flight_paths" in case:
-            in_flight(ctx, case["iface"], case["app"], app, case["in_flight_paths"])
+            from vf import inflight
+            if case.get("preempted"):
+                with inflight.preemptor() as pre:
+                    in_flight(ctx, case["iface"], case["app"], app, case["in_flight_paths"], pre)
+            else:
+                in_flight(ctx, case["iface"], case["app"], app, case["in_flight_paths"])
             ctx.case(1)
             return
         got = judge(ctx, audit, case["iface"], case["app"], form, abs_dir, app, case["path"], case.get("mounted_at", ""))
